@@ -246,4 +246,59 @@ pub fn exec_compare(mem: &mut MemoryAreas, regs: &mut Registers) -> Outcome {
   out
 }
 
+/// The same comparison through the interpreter's block runner: `regs.ip` points at an
+/// instruction which is followed (unless it ends the block itself) by a HALT. Returns None
+/// when the case is outside the domain (undefined opcode, or the instruction overwrote the
+/// HALT), otherwise the mismatches between `interpreter::run_code_block` and the model
+/// stepped over the same one or two instructions.
+pub fn exec_block_compare(mem: &mut MemoryAreas, regs: &mut Registers) -> Option<Vec<Mismatch>> {
+  let mem_ptr = mem as *mut MemoryAreas;
+  let mut cpu = support::cpu_from_regs(regs);
+  let cycles_before = regs.cycles;
+  let start = regs.ip;
+  let mut bus = FixedBus { mem: mem_ptr, writes: [(0, 0); 4], nwrites: 0 };
+  let step = refcpu::step(&mut cpu, &mut bus);
+  if step.effect == refcpu::Effect::Undefined {
+    return None;
+  }
+  unsafe {
+    crate::rt::EXPECT_PANIC = true;
+  }
+  let result = {
+    let r = &mut *regs;
+    std::panic::catch_unwind(std::panic::AssertUnwindSafe(move || interpreter::run_code_block(r, mem_ptr)))
+  };
+  unsafe {
+    crate::rt::EXPECT_PANIC = false;
+  }
+  let mut want_cycles = step.cycles as u32;
+  // the block goes on behind an instruction that does not end it - unless it began in ROM
+  // bank 0 and has reached the switchable bank
+  let goes_on = !step.info.block_end && !(start < 0x4000 && cpu.pc >= 0x4000);
+  if goes_on {
+    let step2 = refcpu::step(&mut cpu, &mut bus);
+    if !step2.info.block_end || step2.effect == refcpu::Effect::Undefined {
+      return None;
+    }
+    want_cycles += step2.cycles as u32;
+  }
+  let mut mismatches = Vec::new();
+  if result.is_err() {
+    mismatches.push(Mismatch { field: "panic", kind: "value", got: 0, want: 0 });
+    return Some(mismatches);
+  }
+  let after = support::regs_tuple(regs);
+  cmp32(&mut mismatches, "af", after[0], cpu.af());
+  cmp32(&mut mismatches, "bc", after[1], cpu.bc());
+  cmp32(&mut mismatches, "de", after[2], cpu.de());
+  cmp32(&mut mismatches, "hl", after[3], cpu.hl());
+  cmp32(&mut mismatches, "sp", after[4], cpu.sp);
+  cmp32(&mut mismatches, "pc", after[5], cpu.pc);
+  let charged = after[6].wrapping_sub(cycles_before);
+  if charged != want_cycles {
+    mismatches.push(Mismatch { field: "cycles", kind: "value", got: charged as u64, want: want_cycles as u64 });
+  }
+  Some(mismatches)
+}
+
 pub fn quiet_panics() {}
